@@ -169,7 +169,7 @@ def decide(v, judged, owned):
         v.cov["model_drift_not_owned"][n] = v.cov["model_drift_not_owned"].get(n, 0) + c
 
 
-def exhaustive_part(v, universe, invariants, gens, owned, lenbonus=0, opts=None, c01=True, max_judge=400, nparts=8):
+def exhaustive_part(v, universe, invariants, gens, owned, lenbonus=0, opts=None, c01=True, max_judge=600, nparts=8):
     total_emits = 0
     last = None
     for res in run_mc_waves(v, universe, invariants, lenbonus, nparts=nparts):
@@ -193,7 +193,7 @@ def exhaustive_part(v, universe, invariants, gens, owned, lenbonus=0, opts=None,
         # executions differing from the specification -> TLC judges the RECORDED observations
         v.cov["executions_differing_from_spec"] = v.cov.get("executions_differing_from_spec", 0) + len(mism)
         mism.sort(key=lambda m: 0 if any(c in owned for c in m["clauses"]) else 1)
-        todo = common.spread(mism, lambda m: (m["d"], tuple(sorted(m["clauses"])), json.dumps(m["gen"])), max_judge)
+        todo = common.spread2(mism, lambda m: tuple(sorted(m["clauses"])), lambda m: (m["d"], json.dumps(m["gen"])), max_judge)
         if todo:
             extra = [(m["rec"], {"d": m["d"], "gen": m["gen"], "extra": m["extra"]}) for m in todo]
             judged = judge_cases(v, univ, [], gens, owned,
